@@ -1,15 +1,16 @@
 """Verify an independently written breaking change and file it under /verif/seeded/<name>/.
-usage: seed.py <worktree with _seed/> <name> <check ids...> [--no-suite]
+usage: seed.py <worktree with _seed/ | /verif/seeded/<name>> <name> <check ids...> [--no-suite]
 Steps: scratch copy of /repo (src, tests, pyproject) + patch; pinned suite on the copy (stable_pass must hold);
 demo with the change (must fail) and on the pristine tree (must pass); the given checks against the copy."""
 import json, os, shutil, subprocess, sys, tempfile
 VERIF = os.path.dirname(os.path.dirname(os.path.abspath(__file__)))
 args = [a for a in sys.argv[1:] if not a.startswith('--')]
 wt, name, checks = args[0], args[1], args[2:]
-sd = os.path.join(wt, '_seed')
+sd = os.path.join(wt, '_seed') if os.path.isdir(os.path.join(wt, '_seed')) else wt   # a scratch worktree, or a filed seeded/<name> directory
 patch = os.path.join(sd, 'patch.diff')
 demo = next((os.path.join(sd, f) for f in ('demo.py', 'test_demo.py') if os.path.exists(os.path.join(sd, f))), None)
 meta = json.load(open(os.path.join(sd, 'meta.json')))
+orig = wt if sd != wt else '/tmp/seed-' + meta['property']   # the path the demonstration was written against
 res = {'suite': None, 'demo_with_change_rc': None, 'demo_without_change_rc': None, 'checks': {}}
 d = tempfile.mkdtemp(prefix='deepseed-')
 try:
@@ -27,13 +28,13 @@ try:
         print('suite on changed tree:', res['suite'])
     env = dict(os.environ, PYTHONPATH=f'{d}/src:{d}/tests')
     env.pop('VERIF_REPO', None)
-    text = open(demo).read().replace(wt, d)
+    text = open(demo).read().replace(orig, d)
     dd = os.path.join(d, '_demo.py'); open(dd, 'w').write(text)
     p = subprocess.run(['/venv/bin/python', dd], cwd=d, env=env, stdout=subprocess.PIPE, stderr=subprocess.STDOUT, text=True, timeout=600)
     res['demo_with_change_rc'] = p.returncode
     print('demo with change rc=', p.returncode, '|', p.stdout.strip().splitlines()[-1:] )
     env2 = dict(os.environ, PYTHONPATH='/repo/src:/repo/tests')
-    text2 = open(demo).read().replace(wt, '/repo')
+    text2 = open(demo).read().replace(orig, '/repo')
     d2 = tempfile.mkdtemp(prefix='deepseed0-'); dd2 = os.path.join(d2, '_demo.py'); open(dd2, 'w').write(text2)
     p = subprocess.run(['/venv/bin/python', dd2], cwd=d2, env=env2, stdout=subprocess.PIPE, stderr=subprocess.STDOUT, text=True, timeout=600)
     shutil.rmtree(d2, ignore_errors=True)
@@ -52,8 +53,9 @@ finally:
     shutil.rmtree(d, ignore_errors=True)
 out = os.path.join(VERIF, 'seeded', name)
 os.makedirs(out, exist_ok=True)
-shutil.copy(patch, os.path.join(out, 'patch.diff'))
-shutil.copy(demo, os.path.join(out, os.path.basename(demo)))
+if os.path.abspath(sd) != os.path.abspath(out):
+    shutil.copy(patch, os.path.join(out, 'patch.diff'))
+    shutil.copy(demo, os.path.join(out, os.path.basename(demo)))
 prev = {}
 if os.path.exists(os.path.join(out, 'meta.json')):
     prev = json.load(open(os.path.join(out, 'meta.json'))).get('verified', {}).get('checks', {})
